@@ -9,5 +9,6 @@ CONSTANTS
  CCoins <- AllZq
  SCoins <- AllZq
  Tamper = FALSE
+ PowM <- TabPowM
 INVARIANTS Correct HonestAbort Refusal OneOnly Curious CuriousPairs
 CHECK_DEADLOCK FALSE
